@@ -71,7 +71,11 @@ func runC12Sched(args []string) error {
 	defer lg.Close()
 	p := in.Params
 	rng := rand.New(rand.NewSource(c.seed + int64(p.NBytes)*1000 + int64(p.G)))
+	stuckCount := 0
 	for si, sched := range in.Schedules {
+		if stuckCount >= 3 {
+			break // the real goroutines do not follow the schedules of this shape: three observations suffice
+		}
 		// fresh data per schedule
 		mv := make([][]uint16, p.Rows)
 		elems := make([]gf2p16.T, 0, p.Rows*p.Ins)
@@ -119,7 +123,7 @@ func runC12Sched(args []string) error {
 		}()
 		// all workers arrive at their first gate
 		pending := map[int]gateMsg{}
-		timeout := time.After(20 * time.Second)
+		timeout := time.After(5 * time.Second)
 		dead := false
 		for len(pending) < p.N && !dead {
 			select {
@@ -150,7 +154,7 @@ func runC12Sched(args []string) error {
 					dead = true
 				}
 				pending[n.w] = n
-			case <-time.After(20 * time.Second):
+			case <-time.After(5 * time.Second):
 				dead = true
 			}
 			if dead {
@@ -169,8 +173,11 @@ func runC12Sched(args []string) error {
 			select {
 			case <-done:
 				finished = true
-			case <-time.After(20 * time.Second):
+			case <-time.After(5 * time.Second):
 			}
+		}
+		if dead || !finished {
+			stuckCount++
 		}
 		rsec16.VerifStepHook = nil
 		if dead || !finished {
